@@ -2677,6 +2677,10 @@ impl Connection {
 
                             // Discard already-queued frames
                             self.spaces[SpaceId::Data].pending = Retransmits::default();
+                            // ...and application datagrams queued before the rejection: they are
+                            // early data too, and the new parameters may not even admit them
+                            self.datagrams.outgoing.clear();
+                            self.datagrams.outgoing_total = 0;
 
                             // Discard 0-RTT packets
                             let sent_packets =
